@@ -3,7 +3,8 @@ CHECKS = {
     'C22': dict(
         category='proof', design_ref='DESIGN.md §6 C22',
         technique='Coq theorem over a model regenerated from the C source (clang AST -> Gallina) + exhaustive C/model correspondence',
-        text=('rel_dist_all_copies: each of the five C copies of the order-hint distance helper, translated to Gallina from /repo on every run, '
+        text=('rel_dist_copies_order_across_wrap: for two pictures less than half an order-hint period apart every C copy returns their true signed distance from the hints alone (before and after the wrap); plain_hint_comparison_refuted: a plain < on hints does not. '
+              'rel_dist_all_copies: each of the five C copies of the order-hint distance helper, translated to Gallina from /repo on every run, '
               'is proved (for all 1<=bits<=31 (the range a C int shift admits; AV1 uses <= 8) and all integers a,b) to return the signed distance modulo 2^bits in [-2^(bits-1),2^(bits-1)), and 0 when order hints are disabled. '
               'The same C text is run exhaustively (bits<=8, all a,b) against the spec and against the generated model.'),
         note=('Trusted: Coq kernel, translators/cast.py on clang\'s typed AST, extraction+OCaml driver, gcc. The long-stream / queue wrap-around clause is exercised end to end (150- and 270-picture streams in the quick tier, 400 and 700 in the thorough tier: recon = decode at every position, packets in order); no two order hints are compared directly anywhere in Source/Lib (textual obligation) '
